@@ -138,14 +138,34 @@ func zzC04CancelCall() {
 	vReach("end")
 }
 
-// canceller.Preempt: a cancelled notification cancels exactly the request it names (same JSON type and value).
+// canceller.Preempt: a cancelled notification cancels exactly the request it names (same JSON type and value);
+// every other message — whatever its method, call or notification — is passed on untouched, so it takes its place in
+// the dispatch order (C03: nothing overtakes a running notification handler by being served from the read loop).
+func zzAllMethodNames() []string {
+	seen := map[string]bool{}
+	var ms []string
+	for m := range serverMethodInfos {
+		if !seen[m] {
+			seen[m] = true
+			ms = append(ms, m)
+		}
+	}
+	for m := range clientMethodInfos {
+		if !seen[m] {
+			seen[m] = true
+			ms = append(ms, m)
+		}
+	}
+	return ms
+}
+
 func zzC04Preempt() {
 	rec := &zzConnRec{}
 	zzCR = rec
 	cn := &canceller{conn: &jsonrpc2.Connection{}}
 	var req *jsonrpc.Request
 	var want jsonrpc2.ID
-	kind := vChoice("kind", 4)
+	kind := vChoice("kind", 3)
 	switch kind {
 	case 0:
 		i := vIntRange("id", -(1 << 53), 1<<53)
@@ -155,10 +175,14 @@ func zzC04Preempt() {
 		s := vStringN("sid", 2)
 		req = &jsonrpc.Request{Method: notificationCancelled, Params: vJSON(CancelledParams{RequestID: s})}
 		want = jsonrpc2.StringID(s)
-	case 2:
-		req = &jsonrpc.Request{Method: "notifications/progress", Params: vJSON(ProgressNotificationParams{})}
 	default:
-		req = &jsonrpc.Request{ID: jsonrpc2.Int64ID(3), Method: "tools/call"}
+		// any other message: every known method name and the unknown names between them, as a call or a notification
+		method := vStringAmong("method", zzAllMethodNames()...)
+		vAssume(method != notificationCancelled)
+		req = &jsonrpc.Request{Method: method, Params: vJSON(&PingParams{})}
+		if vBool("isCall") {
+			req.ID = jsonrpc2.Int64ID(3)
+		}
 	}
 	res, err := cn.Preempt(context.Background(), req)
 	vAssert(res == nil && errors.Is(err, jsonrpc2.ErrNotHandled), "C04.preempt-passes-the-message-on")
@@ -170,6 +194,7 @@ func zzC04Preempt() {
 		vReach("cancel")
 	} else {
 		vAssert(len(rec.cancels) == 0, "C04.only-cancelled-notifications-cancel")
+		vReach("other")
 	}
 	vReach("end")
 }
